@@ -57,9 +57,41 @@ var (
 	ErrDead       = errors.New("process killed")
 )
 
-// Dead makes every call fail without effect: the calling "process" has been killed and
-// only its deferred clean-up is still unwinding (which must not have any effect).
-var Dead bool
+// Kill model: a "process" is the harness thread it runs on (thread 0: the sequential part
+// of a harness). KillAt[id] = k makes the k-th file-system/HTTP call of that process the
+// point where it dies: the call is not performed, Killed is raised, and every later call
+// of the same process (its deferred clean-up, still unwinding) fails without effect.
+// Killable runs f and reports whether it was killed.
+type Killed struct{}
+
+var (
+	Dead   bool // sequential shorthand: process 0 is dead
+	KillAt = map[int]int{}
+	calls  = map[int]int{}
+	dead   = map[int]bool{}
+)
+
+func Killable(f func()) (killed bool) {
+	id := vrt.ThreadID()
+	defer func() {
+		if r := recover(); r != nil {
+			if _, ok := r.(Killed); ok {
+				killed = true
+				return
+			}
+			panic(r)
+		}
+	}()
+	calls[id] = 0
+	f()
+	return false
+}
+
+// Revive lets process id make calls again (a new process on the same thread).
+func Revive(id int) { delete(dead, id); delete(KillAt, id); calls[id] = 0; Dead = false }
+
+// Step is the common prologue of every modelled call (also used by the HTTP shim).
+func Step(op, path string) error { return fail(op, path) }
 
 // Node is a file or directory.
 type Node struct {
@@ -98,6 +130,7 @@ var (
 // Reset clears the model (called by each harness entry).
 func Reset() {
 	Dead = false
+	KillAt, calls, dead = map[int]int{}, map[int]int{}, map[int]bool{}
 	Nodes = nil
 	Events = nil
 	FailHook = nil
@@ -120,8 +153,16 @@ func now() time.Time {
 
 func fail(op, path string) error {
 	vrt.Yield() // every file-system call is a scheduling point for harness threads
-	if Dead {
+	id := vrt.ThreadID()
+	if Dead && id == 0 || dead[id] {
 		return ErrDead
+	}
+	if k, ok := KillAt[id]; ok {
+		calls[id]++
+		if calls[id] == k {
+			dead[id] = true
+			panic(Killed{})
+		}
 	}
 	if FailHook != nil {
 		return FailHook(op, path)
